@@ -487,10 +487,12 @@ Proof.
   repeat split; vm_compute; reflexivity.
 Qed.
 
-(* F-C20-3 (open): hostport keeps the brackets of an IPv6 literal that net.SplitHostPort removes *)
+(* F-C20-3 (fixed by 0f981ad): hostport kept the brackets of an IPv6 literal that
+   net.SplitHostPort removes *)
 Theorem ipv6_brackets_kept_refuted :
-  hostport (bs "[::1]:8080") = Ok (bs "[::1]", bs "8080").
-Proof. vm_compute. reflexivity. Qed.
+  hostport_unrepaired (bs "[::1]:8080") = Ok (bs "[::1]", bs "8080") /\
+  hostport (bs "[::1]:8080") = Ok (bs "::1", bs "8080").
+Proof. split; vm_compute; reflexivity. Qed.
 
 (* ---------------- hostport never panics, whatever the address ---------------- *)
 Lemma index_byte_some s c : forall i, index_byte s c = Some i ->
@@ -518,7 +520,8 @@ Qed.
 Lemma hostport_nonempty s : s <> [] ->
   hostport s = match last_index_byte s 58 with
                | None => Ok (s, [])
-               | Some n => do h <- lg_upto s n; do p <- lg_from s (n + 1); Ok (h, p)
+               | Some n => do h <- lg_upto s n; do p <- lg_from s (n + 1);
+                           do h' <- strip_brackets h; Ok (h', p)
                end.
 Proof. destruct s; [congruence | reflexivity]. Qed.
 
@@ -530,15 +533,48 @@ Proof.
   - split; [discriminate|]. intros I. now apply index_byte_none in E.
 Qed.
 
-(* for EVERY s: no panic; with a ':' the split at the last one (the port has none);
-   without a ':' the whole string is the host and the port is empty *)
-Theorem hostport_total s :
-  exists h p, hostport s = Ok (h, p) /\
-    (has_colon s = true -> s = h ++ [58] ++ p /\ has_colon p = false) /\
-    (has_colon s = false -> h = s /\ p = []).
+(* the bracket step never panics and does what the spec says *)
+Lemma strip_brackets_spec h0 : exists h, strip_brackets h0 = Ok h /\ unbracket_spec h0 h.
+Proof.
+  unfold strip_brackets. destruct (Nat.ltb 1 (length h0)) eqn:El.
+  2:{ exists h0. split; [reflexivity|]. right. split; [|reflexivity].
+      apply Nat.ltb_ge in El. intros inner E. apply (f_equal (@length N)) in E.
+      rewrite !app_length in E. cbn [length] in E. lia. }
+  apply Nat.ltb_lt in El.
+  destruct h0 as [|a t]; [cbn in El; lia|].
+  assert (Ht : t <> []) by (destruct t; [cbn in El; lia | discriminate]).
+  destruct (exists_last Ht) as (t' & b & ->). clear Ht El.
+  cbn [lg_idx nth_error bind].
+  destruct (a =? 91) eqn:Ea; cbn [negb].
+  2:{ exists (a :: t' ++ [b]). split; [reflexivity|]. right. split; [|reflexivity].
+      intros inner E. cbn [app] in E. inversion E. subst a. discriminate. }
+  apply N.eqb_eq in Ea. subst a.
+  assert (Hn : nth_error (91 :: t' ++ [b]) (length (91 :: t' ++ [b]) - 1) = Some b).
+  { cbn [length]. rewrite app_length. cbn [length].
+    replace (S (length t' + 1) - 1)%nat with (S (length t')) by lia. cbn [nth_error].
+    rewrite nth_error_app2 by lia. now rewrite Nat.sub_diag. }
+  unfold lg_idx at 1. rewrite Hn. cbn [bind].
+  destruct (b =? 93) eqn:Eb; cbn [negb].
+  2:{ exists (91 :: t' ++ [b]). split; [reflexivity|]. right. split; [|reflexivity].
+      intros inner E. cbn [app] in E. inversion E as [E'].
+      apply app_inj_tail in E' as [_ ->]. discriminate. }
+  apply N.eqb_eq in Eb. subst b.
+  exists t'. split.
+  - unfold lg_upto, lg_from.
+    assert (L : length (91 :: t' ++ [93]) = S (S (length t'))) by (cbn [length]; rewrite app_length; cbn; lia).
+    rewrite L. replace (Nat.leb (S (S (length t')) - 1) (S (S (length t')))) with true
+      by (symmetry; apply Nat.leb_le; lia).
+    cbn [bind]. replace (S (S (length t')) - 1)%nat with (S (length t')) by lia.
+    cbn [firstn]. rewrite firstn_app, firstn_all, Nat.sub_diag. cbn [firstn]. rewrite app_nil_r.
+    cbn [length Nat.leb skipn]. reflexivity.
+  - left. exists t'. split; reflexivity.
+Qed.
+
+(* for EVERY s: no panic, and the result is the net.SplitHostPort-style split *)
+Theorem hostport_total s : exists h p, hostport s = Ok (h, p) /\ hostport_spec s h p.
 Proof.
   destruct s as [|x s0] eqn:Es.
-  { exists [], []. split; [reflexivity|]. split; [discriminate | now split]. }
+  { exists [], []. split; [reflexivity|]. left. now repeat split. }
   rewrite <- Es. assert (Hne : s <> []) by (rewrite Es; discriminate). clear Es x s0.
   rewrite (hostport_nonempty s Hne). unfold last_index_byte.
   destruct (index_byte (rev s) 58) as [i|] eqn:Ei.
@@ -548,34 +584,102 @@ Proof.
     assert (Hlen : length s = (length b + 1 + length a)%nat).
     { rewrite Hs, app_length. cbn [length]. rewrite !rev_length. lia. }
     replace (length s - 1 - i)%nat with (length (rev b)) by (rewrite rev_length; lia).
-    exists (rev b), (rev a). split; [|split].
+    destruct (strip_brackets_spec (rev b)) as (h & Hh & Hu).
+    exists h, (rev a). split.
     + unfold lg_upto, lg_from.
       replace (Nat.leb (length (rev b)) (length s)) with true
         by (symmetry; apply Nat.leb_le; rewrite rev_length; lia).
       cbn [bind].
       replace (Nat.leb (length (rev b) + 1) (length s)) with true
         by (symmetry; apply Nat.leb_le; rewrite rev_length; lia).
-      cbn [bind]. rewrite Hs at 1 2.
-      rewrite firstn_app, firstn_all, Nat.sub_diag. cbn [firstn]. rewrite app_nil_r.
-      replace (length (rev b) + 1)%nat with (length (rev b ++ [58])) by (rewrite app_length; reflexivity).
-      replace (rev b ++ 58 :: rev a) with ((rev b ++ [58]) ++ rev a) by (now rewrite <- app_assoc).
-      rewrite skipn_app, skipn_all, Nat.sub_diag. reflexivity.
-    + intros _. split; [exact Hs|]. unfold has_colon.
+      cbn [bind].
+      assert (F : firstn (length (rev b)) s = rev b).
+      { rewrite Hs, firstn_app, firstn_all, Nat.sub_diag. cbn [firstn]. now rewrite app_nil_r. }
+      assert (K : skipn (length (rev b) + 1) s = rev a).
+      { rewrite Hs. replace (length (rev b) + 1)%nat with (length (rev b ++ [58])) by (rewrite app_length; reflexivity).
+        replace (rev b ++ 58 :: rev a) with ((rev b ++ [58]) ++ rev a) by (now rewrite <- app_assoc).
+        rewrite skipn_app, skipn_all, Nat.sub_diag. reflexivity. }
+      rewrite F, K, Hh. reflexivity.
+    + right. exists (rev b). split; [exact Hs|]. split; [|exact Hu]. unfold has_colon.
       replace (index_byte (rev a) 58) with (@None nat); [reflexivity|].
       symmetry. apply index_byte_none. intros I. apply Hn. now apply in_rev.
-    + intros Hc. exfalso. assert (In 58 s) by (rewrite Hs; apply in_or_app; right; now left).
-      apply has_colon_iff in H. congruence.
-  - exists s, []. split; [reflexivity|]. split; [|now split].
-    intros Hc. exfalso. apply has_colon_iff in Hc. apply index_byte_none in Ei.
+  - exists s, []. split; [reflexivity|]. left. split; [|now split].
+    destruct (has_colon s) eqn:Hc; [|reflexivity].
+    exfalso. apply has_colon_iff in Hc. apply index_byte_none in Ei.
     apply Ei. now apply -> in_rev.
 Qed.
 
 Theorem hostport_never_panics s : exists hp, hostport s = Ok hp.
 Proof. destruct (hostport_total s) as (h & p & H & _). now exists (h, p). Qed.
 
+(* the split is determined by the spec: whatever satisfies it is what hostport returns *)
+Lemma colon_split_unique h1 p1 h2 p2 :
+  h1 ++ [58] ++ p1 = h2 ++ [58] ++ p2 -> has_colon p1 = false -> has_colon p2 = false ->
+  h1 = h2 /\ p1 = p2.
+Proof.
+  revert h2. induction h1 as [|x h1 IH]; intros h2 E N1 N2.
+  - destruct h2 as [|y h2]; cbn [app] in E.
+    + inversion E. now split.
+    + inversion E as [[Ey E']]. subst y. exfalso.
+      assert (In 58 p1) by (rewrite E'; apply in_or_app; right; now left).
+      apply has_colon_iff in H. congruence.
+  - destruct h2 as [|y h2]; cbn [app] in E.
+    + inversion E as [[Ex E']]. subst x. exfalso.
+      assert (In 58 p2) by (rewrite <- E'; apply in_or_app; right; now left).
+      apply has_colon_iff in H. congruence.
+    + inversion E as [[Ex E']]. subst y. destruct (IH h2 E' N1 N2) as [-> ->]. now split.
+Qed.
+
+Lemma unbracket_unique h0 h1 h2 : unbracket_spec h0 h1 -> unbracket_spec h0 h2 -> h1 = h2.
+Proof.
+  intros [(i1 & E1 & ->)|(N1 & ->)] [(i2 & E2 & ->)|(N2 & ->)]; try reflexivity.
+  - rewrite E1 in E2. cbn [app] in E2. inversion E2 as [E]. now apply app_inv_tail in E.
+  - exfalso. now apply (N2 i1).
+  - exfalso. now apply (N1 i2).
+Qed.
+
+Theorem hostport_spec_unique s h1 p1 h2 p2 :
+  hostport_spec s h1 p1 -> hostport_spec s h2 p2 -> h1 = h2 /\ p1 = p2.
+Proof.
+  intros [(C1 & -> & ->)|(a & E1 & N1 & U1)] [(C2 & -> & ->)|(b & E2 & N2 & U2)].
+  - now split.
+  - exfalso. assert (In 58 s) by (rewrite E2; apply in_or_app; right; now left).
+    apply has_colon_iff in H. congruence.
+  - exfalso. assert (In 58 s) by (rewrite E1; apply in_or_app; right; now left).
+    apply has_colon_iff in H. congruence.
+  - rewrite E1 in E2. destruct (colon_split_unique _ _ _ _ E2 N1 N2) as [-> ->].
+    split; [eapply unbracket_unique; eassumption | reflexivity].
+Qed.
+
+(* in particular: "[v6]:port" and "host:port" as net.SplitHostPort splits them *)
+Corollary hostport_bracketed inner port : has_colon port = false ->
+  hostport ([91] ++ inner ++ [93] ++ [58] ++ port) = Ok (inner, port).
+Proof.
+  intros Hp. destruct (hostport_total ([91] ++ inner ++ [93] ++ [58] ++ port)) as (h & p & H & S).
+  rewrite H. f_equal.
+  assert (S' : hostport_spec ([91] ++ inner ++ [93] ++ [58] ++ port) inner port).
+  { right. exists ([91] ++ inner ++ [93]). split; [now rewrite <- !app_assoc|]. split; [exact Hp|].
+    left. now exists inner. }
+  destruct (hostport_spec_unique _ _ _ _ _ S S') as [-> ->]. reflexivity.
+Qed.
+
+Corollary hostport_plain host port : has_colon port = false -> hd 0 host <> 91 ->
+  hostport (host ++ [58] ++ port) = Ok (host, port).
+Proof.
+  intros Hp Hh. destruct (hostport_total (host ++ [58] ++ port)) as (h & p & H & S).
+  rewrite H. f_equal.
+  assert (S' : hostport_spec (host ++ [58] ++ port) host port).
+  { right. exists host. split; [reflexivity|]. split; [exact Hp|]. right. split; [|reflexivity].
+    intros inner E. subst host. now apply Hh. }
+  destruct (hostport_spec_unique _ _ _ _ _ S S') as [-> ->]. reflexivity.
+Qed.
+
 Example hostport_examples :
   hostport (bs "10.0.0.7:8080") = Ok (bs "10.0.0.7", bs "8080") /\
-  hostport (bs "backend") = Ok (bs "backend", []) /\ hostport_unrepaired (bs "backend") = Panic.
+  hostport (bs "backend") = Ok (bs "backend", []) /\ hostport_unrepaired (bs "backend") = Panic /\
+  hostport (bs "[::1]:8080") = Ok (bs "::1", bs "8080") /\
+  hostport (bs "[]:80") = Ok ([], bs "80") /\ hostport (bs "[:80") = Ok (bs "[", bs "80") /\
+  hostport (bs "[::1]") = Ok (bs "[:", bs "1]").
 Proof. repeat split; vm_compute; reflexivity. Qed.
 
 Example atoi_spec_nonvacuous :
